@@ -71,6 +71,11 @@ func approx(a, b float32) bool {
 func VerifTextIndex() {
 	bucket := diskstore.NewMemBucket(false)
 	texts := [3]string{} // model: current text of doc 1 and 2 ("" = not indexed)
+	if vparam("PRE", 0) == 1 {
+		// a second document is already indexed, so that corpus size and document frequencies matter
+		vassert("pre-write-ok", writeDocs(newTextIndex(bucket), []Document{{Id: 2, Text: "a"}}) == nil)
+		texts[2] = "a"
+	}
 	nops := nondetIntRange(1, vparam("OPS", 2))
 	for i := 0; i < nops; i++ {
 		// each write batch is its own transaction over a fresh index object (as the dispatcher does)
